@@ -4,7 +4,7 @@ import ast
 
 from .. import AnalysisError, tables
 from ..pat import find_expr, find_stmt, match_expr, match_stmt
-from ..canon import canon, canon_node
+from ..canon import canon, canon_node, single_assignments
 from ..pm import src
 from ..q import FA, conjuncts, call_name, cfg_of, guard_facts, is_self_attr, nfact, returns_under, walk_no_nested
 from ..resolve import resolver
@@ -513,6 +513,59 @@ def run(ctx):
                 ctx.ob("R-DOM", "C07.9", f_, "the Gaussian prime prior of an angle map is offered only with the auxiliary chi radius (guard: self.chi), never with a user-supplied radial parameter", ok_, f"`{src(fa_.stmt(nid_))}` under {[(src(e_), t_) for e_, t_ in guard_facts(fa_, nid_)]}", node=fa_.stmt(nid_))
     ctx.require(n_chi >= 2, f"only {n_chi} stores that switch the prime prior on in the angle reparameterisations")
     ctx.floor("C07.9", 2)
+
+    # ---- C07.11 the prime-prior bounds are computed for the map that is applied ---------------------------------------
+    # RescaleToBounds applies the boundary inversion to parameter p exactly when `boundary_inversion and p in
+    # boundary_inversion`; determine_rescaled_bounds must be told the same thing (its `inversion` flag), otherwise the
+    # offered prime prior has the support of a map that is not the one used
+    from ..summ import _expand as _exp11
+    import copy as _copy11
+
+    def _pred_lits(e_):
+        """set of alternative literal sets under which e_ is true (IfExp with a False arm and `x in (B or {})` unfolded)"""
+        class U(ast.NodeTransformer):
+            def visit_IfExp(self, n_):
+                self.generic_visit(n_)
+                if isinstance(n_.orelse, ast.Constant) and n_.orelse.value is False:
+                    return ast.BoolOp(op=ast.And(), values=[n_.test, n_.body])
+                return n_
+
+            def visit_Compare(self, n_):
+                self.generic_visit(n_)
+                c_ = n_.comparators[0] if len(n_.ops) == 1 else None
+                if isinstance(n_.ops[0], ast.In) and isinstance(c_, ast.BoolOp) and isinstance(c_.op, ast.Or) and len(c_.values) == 2 and isinstance(c_.values[1], (ast.Dict, ast.List, ast.Tuple, ast.Set)) and not getattr(c_.values[1], "elts", getattr(c_.values[1], "keys", [])):
+                    return ast.BoolOp(op=ast.And(), values=[c_.values[0], ast.Compare(left=n_.left, ops=[ast.In()], comparators=[c_.values[0]])])
+                return n_
+
+        e2_ = U().visit(_copy11.deepcopy(e_))
+        return {frozenset((canon(x_), t_) for x_, t_ in alt_) for alt_ in _exp11(e2_, True)}
+
+    rtb11 = prog.cls(RTB)
+    want11 = None
+    for mname_, callee_ in (("reparameterise", "_apply_inversion"), ("inverse_reparameterise", "_reverse_inversion")):
+        m11 = rtb11.methods[mname_]
+        fa11 = FA(m11)
+        calls11 = fa11.find_calls("self." + callee_)
+        ctx.require(len(calls11) == 1, f"RescaleToBounds.{mname_}: call of {callee_} not found")
+        loopvar = next((n_.ast.target.elts[0].id for n_ in fa11.nodes() if n_.kind == "for" and isinstance(n_.ast.target, ast.Tuple) and isinstance(n_.ast.target.elts[0], ast.Name)), "p")
+        lits11 = frozenset((canon(e_, rename={loopvar: "p"}), t_) for e_, t_ in guard_facts(fa11, calls11[0][0]) if "boundary_inversion" in src(e_))
+        want11 = want11 or lits11
+        ctx.ob("R-SIB", "C07.11", m11, "the boundary inversion is applied to p exactly when `boundary_inversion and p in boundary_inversion` (same predicate forwards and backwards)", lits11 == want11 and lits11 == frozenset({("self.boundary_inversion", True), ("p in self.boundary_inversion", True)}), f"{sorted(lits11)}")
+    up11 = rtb11.methods["update_prime_prior_bounds"]
+    inl11 = single_assignments(up11.node)
+    drb = [c_ for c_ in ast.walk(up11.node) if isinstance(c_, ast.Call) and (call_name(c_) or "").endswith("determine_rescaled_bounds")]
+    ctx.require(len(drb) == 1, "update_prime_prior_bounds: determine_rescaled_bounds call not found")
+    inv_kw = next((k_.value for k_ in drb[0].keywords if k_.arg == "inversion"), None)
+    got11 = None
+    if inv_kw is not None:
+        from ..canon import canon_node as _cn11
+        class _Sub11(ast.NodeTransformer):
+            def visit_Name(self, n_):
+                return _copy11.deepcopy(inl11[n_.id]) if isinstance(n_.ctx, ast.Load) and n_.id in inl11 else n_
+
+        got11 = _pred_lits(_cn11(_Sub11().visit(_copy11.deepcopy(inv_kw))))
+    ctx.ob("R-SIB", "C07.11", up11, "the prime-prior bounds are computed with inversion=True for exactly the parameters the map inverts", got11 == {want11}, f"inversion=`{src(inv_kw) if inv_kw is not None else None}` -> {sorted(map(sorted, got11)) if got11 else None}")
+    ctx.floor("C07.11", 3)
 
     # ---- C07.10 evaluating a prior (or a bounds / likelihood wrapper) never changes the points it is given ---------------
     # Angle.x_prime_log_prior hands field views of the prime-space live points to the functions of nessai.priors; an
